@@ -85,7 +85,7 @@ def has_nested_csum(m):
     """True iff some checksummed rule has another checksummed rule in its dependency closure (D12 shape)."""
     def stamped(t):
         r = m.rule_for(t)
-        return r is not None and any(s[0] == "stamp" for s in m.dofiles[r[0]]["body"])
+        return r is not None and any(s[0] in ("stamp", "stampif", "stampsrc") for s in m.dofiles[r[0]]["body"])
     for t in m.targets:
         if stamped(t):
             for q in m.closure(t):
@@ -105,6 +105,7 @@ class HistoryRunner:
         self.m = M.Model(case["project"], keep_going=bool(case["cfg"].get("keep_going")))
         self.disk.materialize(case["project"])
         self.variants = collections.Counter()
+        self.max_variant = {}
         self.changed_since_cmd = False
         self.user_kind = {}
         self.role_changes = collections.Counter()
@@ -114,6 +115,9 @@ class HistoryRunner:
             self.env["REDO_LOG"] = "0"
         if case["cfg"].get("keep_going"):
             self.env["REDO_KEEP_GOING"] = "1"
+        for fl in case["cfg"].get("stampflags_on", []):
+            self.disk.set_stampflag(fl, True)
+            self.m.stampflags.add(fl)
         self.step = 0
         self.ustat = {}
         for pth, f in self.m.fs.items():
@@ -156,7 +160,15 @@ class HistoryRunner:
         elif k == "edit":
             p = op[1]
             if p in m.fs and m.fs[p].owner == "user":
-                self.variants[p] += 1
+                if len(op) > 2:
+                    nv = self.case["cfg"].get("nvariants", 3)
+                    v = op[2] if op[2] != self.variants[p] else (op[2] + 1) % nv
+                    if v < self.max_variant.get(p, 0):
+                        self.pending_changes.add("edit-revert")
+                    self.variants[p] = v
+                else:
+                    self.variants[p] += 1
+                self.max_variant[p] = max(self.max_variant.get(p, 0), self.variants[p])
                 data = P.source_content(p, self.variants[p])
                 disk.write(p, data)
                 m.user_write(p, data)
@@ -175,6 +187,8 @@ class HistoryRunner:
                 self.pending_changes.add("rmtarget")
         elif k == "setdo":
             dof, spec = op[1], op[2]
+            if any(f.data == M.DIRDATA and dof in [c[0] for c in P.do_candidates(pth)] for pth, f in m.fs.items()):
+                return   # would turn an existing directory into a directory target
             new = dof not in m.dofiles
             disk.write(dof, P.render_do(dof, spec).encode(), fresh_inode=True)
             m.set_dofile(dof, spec)
@@ -187,9 +201,18 @@ class HistoryRunner:
         elif k == "mkpath":
             p = op[1]
             if p not in m.fs:
-                data = P.source_content(p, 0)
-                disk.write(p, data)
-                m.user_write(p, data)
+                if len(op) > 2 and op[2] == "dir":
+                    # the watched path comes into existence as a directory; a directory whose name is matched by
+                    # a rule would be a directory *target* (kept out of the generators, DESIGN §5)
+                    if m.rule_for(p) is not None:
+                        return
+                    disk.mkdir(p)
+                    m.user_mkdir(p)
+                    self.pending_changes.add("mkpath-dir")
+                else:
+                    data = P.source_content(p, 0)
+                    disk.write(p, data)
+                    m.user_write(p, data)
                 self.pending_changes.add("mkpath")
         elif k == "rmpath":
             p = op[1]
@@ -207,6 +230,12 @@ class HistoryRunner:
             else:
                 m.failflags.discard(op[1])
             self.pending_changes.add("failflag")
+        elif k == "stampflag":
+            disk.set_stampflag(op[1], bool(op[2]))
+            if op[2]:
+                m.stampflags.add(op[1])
+            else:
+                m.stampflags.discard(op[1])
         elif k == "query":
             self.do_query(op[1], op[2])
         elif k == "mwrite":
@@ -306,6 +335,10 @@ class HistoryRunner:
         ch = self.checks
         ev = self.out.events
         cex, mex = collections.Counter(ex), collections.Counter(m.executed)
+        if "csum" in ch:
+            # C03's own clauses first, so that a change that is not forwarded is reported as that (and not only as
+            # the stale content it causes)
+            self.check_csum(targets, ok, ex, cex, mex, nested, ctx, final=False)
         # ---------- C01: contents after a successful command ----------
         if ok and "content" in ch:
             memo = {}
@@ -453,7 +486,7 @@ class HistoryRunner:
 
     def stamped(self, t):
         r = self.m.rule_for(t)
-        return r is not None and any(s[0] == "stamp" for s in self.m.dofiles[r[0]]["body"])
+        return r is not None and any(s[0] in ("stamp", "stampif", "stampsrc") for s in self.m.dofiles[r[0]]["body"])
 
     def depth_to(self, roots, c):
         """Length of the shortest current-rule dependency path from any requested target to c."""
@@ -483,7 +516,7 @@ class HistoryRunner:
                         frontier.append((q, d + 1))
         return None
 
-    def check_csum(self, targets, ok, ex, cex, mex, nested, ctx):
+    def check_csum(self, targets, ok, ex, cex, mex, nested, ctx, final=True):
         m = self.m
         ev = self.out.events
         pre = self.pre_csum
@@ -491,9 +524,10 @@ class HistoryRunner:
             if not self.stamped(c) or c not in mex:
                 continue
             r = m.rec.get(c)
-            changed = (r is None) or (r.csum != pre.get(c))
+            # (a build that did not call redo-stamp -- a `stampif` rule whose flag is off -- always forwards)
+            changed = (r is None) or r.csum is None or (r.csum != pre.get(c))
             strict = [t for t in targets if t != c and c in m.closure(t)]
-            if strict:
+            if strict and not final:
                 self.out.nontrivial = True
                 d = self.depth_to(strict, c)
                 ev["c03:%s/depth%s/%s" % ("changed" if changed else "unchanged",
@@ -518,6 +552,8 @@ class HistoryRunner:
                 if missing:
                     self.violate("C03", "not-forwarded", dict(ctx, csum_target=c, missing=sorted(missing)),
                                  {"symptom": "missing", "oob": m.oob_used})
+        if not final:
+            return
         if cex != mex:
             extra = sorted((cex - mex).elements())
             missing = sorted((mex - cex).elements())
